@@ -279,3 +279,58 @@ func VH_C16_Large() {
 	symAssert(d.Name == c.Name && d.Source == c.Source && string(d.AST) == string(c.AST), "fields-equal")
 	symAssert(d.LastModified == c.LastModified && d.CompileTime == c.CompileTime, "times-equal")
 }
+
+// ---- C16.recompile: what Compile hands out belongs to the caller ---------------------------------------
+
+// VH_C16_Recompile: a template is compiled, the caller changes the fields of the compiled value it was
+// given (symbolic choice of which: name, source, timestamps, tree bytes) and overwrites the serialised
+// bytes, and compiles / serialises the same template again: the second result describes the template,
+// not the caller's edits, and loads and renders like the source.
+func VH_C16_Recompile() {
+	src := "s{{ x }}" + symStringIn(1, "pq")
+	e := New()
+	if e.RegisterString("t", src) != nil {
+		return
+	}
+	c1, err := e.CompileTemplate("t")
+	symAssert(err == nil && c1 != nil, "compiles")
+	if err != nil || c1 == nil {
+		return
+	}
+	d1, _ := SerializeCompiledTemplate(c1)
+	lm, ct := c1.LastModified, c1.CompileTime
+	if symBool() {
+		c1.Name = "variant"
+	}
+	if symBool() {
+		c1.Source = "VARIANT {{ x }}"
+	}
+	if symBool() {
+		c1.LastModified, c1.CompileTime = 1, 2
+	}
+	if symBool() && len(c1.AST) > 0 {
+		c1.AST[0] ^= 0xff
+	}
+	if symBool() {
+		for i := range d1 {
+			d1[i] = 0
+		}
+	}
+	c2, err := e.CompileTemplate("t")
+	symCover("recompiled")
+	symAssert(err == nil && c2 != nil, "compiles-again")
+	if err != nil || c2 == nil {
+		return
+	}
+	symAssert(c2.Name == "t" && c2.Source == src, "second-compile-describes-the-template")
+	symAssert(c2.LastModified == lm, "second-compile-keeps-the-template-timestamp")
+	_ = ct
+	d2, err := SerializeCompiledTemplate(c2)
+	symAssert(err == nil, "serializes")
+	e2 := New()
+	symAssert(e2.LoadFromCompiledData(d2) == nil, "loads")
+	x := symStringIn(1, "ab")
+	o1, r1 := e.Render("t", map[string]interface{}{"x": x})
+	o2, r2 := e2.Render("t", map[string]interface{}{"x": x})
+	symAssert(r1 == nil && r2 == nil && o1 == o2, "renders-like-the-source")
+}
